@@ -299,6 +299,10 @@ fn fam_marker(ctx: &CaseCtx, cov: &mut Cov) -> CaseOut {
     let props = crate::gen::l2gen::random_props_l2(&mut rng);
     let n = rng.range(0, 40) as usize;
     let mut prog: Vec<Sym> = (0..n).map(|_| Sym::Lit(rng.byte())).collect();
+    // the marker's own length field varies (2..273): a decoder that charges the marker's length
+    // against the chunk's declared size has its blind spot at produced + that length
+    let eos_len = if ctx.index % 3 == 0 { 2 } else { [3u32, 4, 9, 10, 18, 100, 273][(ctx.index as usize / 3) % 7] };
+    let _eos = crate::refmodel::lzma::with_eos_len(eos_len);
     prog.push(Sym::Eos);
     // encode by hand: Lzma2Writer refuses Eos-only emptiness, so build the chunk here
     let (payload, _t, hist) = match crate::refmodel::lzma::encode_program(&prog, props) {
@@ -311,7 +315,8 @@ fn fam_marker(ctx: &CaseCtx, cov: &mut Cov) -> CaseOut {
     // the declared size exceeds what the payload produces by a small amount, by a multiple of
     // 256 / 65536 (the shortfall then lives entirely in the high size bits of the control
     // byte) or up to the 2 MiB the field can express
-    let delta = match rng.below(5) {
+    let delta = match rng.below(6) {
+        5 => eos_len as usize,
         0 | 1 => rng.range(1, 50) as usize,
         2 => (rng.range(1, 31) as usize) << 16,
         3 => (rng.range(1, 255) as usize) << 8,
